@@ -1,1 +1,967 @@
-From E2V Require Import Bitmap.RBModel Bitmap.BAModel.
+(* Proofs about the rbtree bitmap model: the node sequence stays sorted,
+   disjoint and non-adjacent, cursors stay valid, and every operation has the
+   effect on the membership function that a set of integers prescribes. *)
+From E2V Require Import Bitmap.RBModel Bitmap.FSetLemmas Bitmap.BackendOk.
+Local Open Scope N_scope.
+
+Ltac split3 := split; [|split].
+Ltac split4 := split; [|split; [|split]].
+Ltac split5 := split; [|split; [|split; [|split]]].
+Ltac bd :=
+  repeat match goal with
+  | |- context [?a <=? ?b] => destruct (N.leb_spec a b)
+  | |- context [?a <? ?b] => destruct (N.ltb_spec a b)
+  | |- context [?a =? ?b] => destruct (N.eqb_spec a b)
+  | H : context [?a <=? ?b] |- _ => destruct (N.leb_spec a b)
+  | H : context [?a <? ?b] |- _ => destruct (N.ltb_spec a b)
+  | H : context [?a =? ?b] |- _ => destruct (N.eqb_spec a b)
+  end.
+
+(* ---- well-formed node sequences ---- *)
+Fixpoint wf_from (lo : N) (l : list node) : Prop :=
+  match l with
+  | [] => True
+  | e :: t => lo <= ns e /\ 0 < nc e /\ wf_from (nend e + 1) t
+  end.
+
+Lemma wf_from_weaken lo lo' l : wf_from lo l -> lo' <= lo -> wf_from lo' l.
+Proof. destruct l as [|e t]; simpl; [auto|]. intros (A & B & C) H. split3; auto; lia. Qed.
+
+Lemma mem_cons e t b : mem_nodes (e :: t) b = inside e b || mem_nodes t b.
+Proof. unfold mem_nodes; simpl. destruct (inside e b); reflexivity. Qed.
+
+Lemma mem_nil b : mem_nodes [] b = false.
+Proof. reflexivity. Qed.
+
+Lemma mem_below lo l b : wf_from lo l -> b < lo -> mem_nodes l b = false.
+Proof.
+  revert lo; induction l as [|e t IH]; intros lo W Hb; [reflexivity|].
+  destruct W as (A & B & C). rewrite mem_cons.
+  rewrite (IH (nend e + 1)); auto; [|unfold nend; lia].
+  unfold inside, nend. bd; simpl; try reflexivity; lia.
+Qed.
+
+Lemma find_cont_inside b l e : find_cont b l = Some e -> In e l /\ inside e b = true.
+Proof.
+  induction l as [|x t IH]; simpl; [discriminate|].
+  destruct (inside x b) eqn:E; intros H.
+  - inversion H; subst. auto.
+  - destruct (IH H). auto.
+Qed.
+
+Lemma find_cont_none b l : find_cont b l = None -> mem_nodes l b = false.
+Proof. unfold mem_nodes. intros ->. reflexivity. Qed.
+
+Lemma find_cont_some b l e : find_cont b l = Some e -> mem_nodes l b = true.
+Proof. unfold mem_nodes. intros ->. reflexivity. Qed.
+
+Lemma in_wf_inside lo l e b : wf_from lo l -> In e l -> inside e b = true -> mem_nodes l b = true.
+Proof.
+  revert lo; induction l as [|x t IH]; intros lo W HI Hin; [destruct HI|].
+  rewrite mem_cons. destruct HI as [->|HI]; [rewrite Hin; reflexivity|].
+  destruct W as (_ & _ & C). rewrite (IH _ C HI Hin). apply orb_true_r.
+Qed.
+
+(* ---- merge_right ---- *)
+Lemma merge_right_spec start count : forall post lo c p f,
+  wf_from lo post -> start < lo -> 0 < count ->
+  merge_right start count post = (c, p, f) ->
+  count <= c /\ wf_from (start + c + 1) p /\
+  (forall b, f_rng start c b || mem_nodes p b = f_rng start count b || mem_nodes post b).
+Proof.
+  induction post as [|e t IH]; intros lo c p f W Hlo Hc M.
+  - simpl in M. inversion M; subst. split; [lia|]. split; [exact I|]. reflexivity.
+  - simpl in M. destruct W as (A & B & C).
+    destruct (N.leb_spec (nend e) start) as [H1|H1]; [unfold nend in H1; lia|].
+    destruct (N.ltb_spec (start + count) (ns e)) as [H2|H2].
+    + inversion M; subst. split3; [lia| |reflexivity].
+      simpl. split3; auto; lia.
+    + destruct (N.leb_spec (nend e) (start + count)) as [H3|H3].
+      * destruct (merge_right start count t) as [[c' p'] f'] eqn:E. inversion M; subst.
+        destruct (IH (nend e + 1) c p f' C) as (I1 & I2 & I3); auto; [unfold nend; lia|].
+        split3; auto. intros b. rewrite I3, mem_cons.
+        unfold f_rng, inside, nend in *. bd; simpl; try reflexivity; try lia;
+          destruct (mem_nodes t b); reflexivity.
+      * inversion M; subst. split3; [lia| |].
+        -- replace (start + (count + (nend e - (start + count))) + 1) with (nend e + 1) by (unfold nend in *; lia). exact C.
+        -- intros b. rewrite mem_cons. unfold f_rng, inside, nend in *.
+           bd; simpl; try reflexivity; try lia; destruct (mem_nodes t b); reflexivity.
+Qed.
+
+(* ---- ins_nodes ---- *)
+Lemma ins_nodes_spec fr start count : forall l lo l' r f n,
+  wf_from lo l -> lo <= start -> 0 < count ->
+  ins_nodes fr start count l = (l', r, f, n) ->
+  wf_from lo l' /\
+  (forall b, mem_nodes l' b = f_rng start count b || mem_nodes l b) /\
+  (count = 1 -> r = b2n (mem_nodes l start)).
+Proof.
+  induction l as [|e t IH]; intros lo l' r f n W Hlo Hc I.
+  - cbn [ins_nodes] in I. inversion I; subst. split3.
+    + simpl; split3; auto.
+    + intros b. rewrite mem_cons, mem_nil. unfold inside, nend, f_rng. simpl. reflexivity.
+    + reflexivity.
+  - cbn [ins_nodes] in I. destruct W as (A & B & C).
+    destruct (N.ltb_spec start (ns e)) as [H1|H1].
+    + (* new node in front *)
+      destruct (merge_right start count (e :: t)) as [[c p] f'] eqn:M. inversion I; subst.
+      destruct (merge_right_spec start count (e :: t) (start + 1) c p f) as (M1 & M2 & M3); auto.
+      { simpl. split3; auto; lia. } { lia. }
+      split3.
+      * simpl; split3; auto; try lia; try (unfold nend; simpl; exact M2).
+      * intros b. rewrite mem_cons. unfold inside, nend; simpl. fold (f_rng start c b). apply M3.
+      * intros _. rewrite (mem_below (start + 1) (e :: t)); [reflexivity| |lia].
+        simpl; split3; auto; lia.
+    + destruct (N.leb_spec start (nend e)) as [H2|H2].
+      * destruct (N.leb_spec (start + count) (nend e)) as [H3|H3].
+        -- inversion I; subst. split3; [simpl; auto| |].
+           ++ intros b. rewrite mem_cons. unfold f_rng, inside in *.
+              bd; simpl; try reflexivity; lia.
+           ++ intros _. rewrite mem_cons. unfold inside. bd; simpl; try reflexivity; lia.
+        -- destruct (merge_right (ns e) (count + (start - ns e)) t) as [[c p] f'] eqn:M.
+           inversion I; subst.
+           destruct (merge_right_spec (ns e) (count + (start - ns e)) t (nend e + 1) c p f) as (M1 & M2 & M3); auto;
+             [unfold nend; lia|lia|].
+           split3.
+           ++ simpl; split3; auto; try lia; try (unfold nend; simpl; exact M2).
+           ++ intros b. rewrite !mem_cons. unfold inside at 1. unfold nend at 1. simpl.
+              fold (f_rng (ns e) c b). rewrite M3.
+              unfold f_rng, inside, nend in *. bd; simpl; try reflexivity; try lia;
+                destruct (mem_nodes t b); reflexivity.
+           ++ intros ->. rewrite mem_cons.
+              rewrite (mem_below (nend e + 1) t); auto; [|unfold nend in *; lia].
+              unfold inside. bd; simpl; try reflexivity; unfold nend in *; lia.
+      * destruct (ins_nodes fr start count t) as [[[l2 r2] f2] n2] eqn:E. inversion I; subst.
+        destruct (IH (nend e + 1) l2 r f n C) as (I1 & I2 & I3); auto; [lia|].
+        split3; [simpl; auto| |].
+        -- intros b. rewrite !mem_cons, I2. destruct (inside e b), (f_rng start count b); reflexivity.
+        -- intros H. rewrite (I3 H), mem_cons.
+           replace (inside e start) with false; [reflexivity|].
+           unfold inside. bd; simpl; try reflexivity; lia.
+Qed.
+
+(* the wcursor shortcut lands where the descent would *)
+Lemma ins_at_eq fr start count : forall l lo w,
+  wf_from lo l -> In w l -> ns w <= start <= nend w ->
+  (forall x y, In x l -> In y l -> nid x = nid y -> x = y) ->
+  ins_nodes fr start count l =
+  (let '(l', r, f) := ins_at (nid w) start count l in (l', r, f, None)).
+Proof.
+  induction l as [|e t IH]; intros lo w W HI Hr U; [destruct HI|].
+  destruct W as (A & B & C). cbn [ins_nodes ins_at].
+  destruct (N.eqb_spec (nid e) (nid w)) as [Heq|Hne].
+  - assert (e = w) by (apply U; simpl; auto). subst e.
+    destruct (N.ltb_spec start (ns w)); [lia|].
+    destruct (N.leb_spec start (nend w)); [|lia].
+    destruct (start + count <=? nend w); [reflexivity|].
+    destruct (merge_right (ns w) (count + (start - ns w)) t) as [[c p] f]. reflexivity.
+  - destruct HI as [->|HI]; [congruence|].
+    assert (Hlt : nend e + 1 <= ns w).
+    { clear - C HI. revert C. generalize (nend e + 1). induction t as [|x t IHt]; intros lo' C; [destruct HI|].
+      destruct C as (A & B & C). destruct HI as [->|HI]; [exact A|].
+      specialize (IHt HI _ C). unfold nend in *. lia. }
+    destruct (N.ltb_spec start (ns e)); [unfold nend in *; lia|].
+    destruct (N.leb_spec start (nend e)); [unfold nend in *; lia|].
+    rewrite (IH (nend e + 1) w C HI Hr).
+    + destruct (ins_at (nid w) start count t) as [[l' r] f]. reflexivity.
+    + intros x y Hx Hy. apply U; simpl; auto.
+Qed.
+
+(* ---- scan_right / rm_nodes ---- *)
+Lemma scan_right_spec start count : forall l lo ret p r f,
+  wf_from lo l -> start < lo ->
+  scan_right start count l ret = (p, r, f) ->
+  wf_from lo p /\
+  (forall b, mem_nodes p b = negb (f_rng start count b) && mem_nodes l b) /\
+  (r = ret \/ r = 1) /\ (start + count <= lo -> r = ret).
+Proof.
+  induction l as [|e t IH]; intros lo ret p r f W Hlo S.
+  - simpl in S. inversion S; subst. split4; auto. intros b. rewrite mem_nil. apply eq_sym, andb_false_r.
+  - simpl in S. destruct W as (A & B & C).
+    destruct (N.leb_spec (nend e) start) as [H1|H1]; [unfold nend in H1; lia|].
+    destruct (N.leb_spec (start + count) (ns e)) as [H2|H2].
+    + inversion S; subst. split4; auto; [simpl; auto|].
+      intros b. destruct (f_rng start count b) eqn:F; [|reflexivity]. simpl.
+      apply (mem_below (start + count)); [simpl; split3; auto|].
+      unfold f_rng in F. bd; simpl in F; try discriminate; lia.
+    + destruct (N.leb_spec (nend e) (start + count)) as [H3|H3].
+      * destruct (scan_right start count t 1) as [[p' r'] f'] eqn:E. inversion S; subst.
+        destruct (IH (nend e + 1) 1 p r f' C) as (I1 & I2 & I3 & I4); auto; [unfold nend; lia|].
+        split4.
+        -- eapply wf_from_weaken; [exact I1|unfold nend; lia].
+        -- intros b. rewrite I2, mem_cons. unfold f_rng, inside, nend in *.
+           bd; simpl; try reflexivity; lia.
+        -- destruct I3; subst; auto.
+        -- intros; lia.
+      * inversion S; subst. split4; auto; [| |intros; lia].
+        -- unfold nend in *; simpl. split3; try (simpl; lia). unfold nend; simpl.
+           replace (start + count + (nc e - (start + count - ns e)) + 1) with (ns e + nc e + 1) by lia. exact C.
+        -- intros b. rewrite !mem_cons. unfold f_rng, inside, nend in *; simpl.
+           destruct (f_rng start count b) eqn:F; unfold f_rng in F.
+           ++ simpl. rewrite (mem_below (ns e + nc e + 1) t); auto;
+              bd; simpl in *; try reflexivity; try discriminate; lia.
+           ++ simpl. bd; simpl in *; try reflexivity; try discriminate; try lia;
+                rewrite (mem_below (ns e + nc e + 1) t); auto; lia.
+Qed.
+
+Definition rm_ok (start count lo : N) (l : list node) (o : rm_out) : Prop :=
+  match o with
+  | RmDone l' r f =>
+    wf_from lo l' /\
+    (forall b, mem_nodes l' b = negb (f_rng start count b) && mem_nodes l b) /\
+    (count = 1 -> r = b2n (mem_nodes l start))
+  | RmSplit l' a k =>
+    wf_from lo l' /\ 0 < k /\
+    (forall b, f_rng a k b || mem_nodes l' b = negb (f_rng start count b) && mem_nodes l b) /\
+    mem_nodes l start = true
+  end.
+
+Lemma rm_nodes_spec start count : forall l lo,
+  wf_from lo l -> rm_ok start count lo l (rm_nodes start count l).
+Proof.
+  induction l as [|e t IH]; intros lo W.
+  - simpl. split3; auto. intros b. rewrite mem_nil. apply eq_sym, andb_false_r.
+  - destruct W as (A & B & C). cbn [rm_nodes].
+    destruct (inside e start) eqn:Hin.
+    + assert (Hs : ns e <= start < nend e) by (unfold inside in Hin; bd; simpl in *; try discriminate; lia).
+      assert (Hm : mem_nodes (e :: t) start = true) by (rewrite mem_cons, Hin; reflexivity).
+      destruct (N.ltb_spec (ns e) start) as [H1|H1]; destruct (N.ltb_spec (start + count) (nend e)) as [H2|H2]; simpl.
+      * (* split *)
+        split4; auto; try (unfold nend in *; lia).
+        -- simpl. split3; auto; try lia. unfold nend in *; simpl.
+           eapply wf_from_weaken; [exact C|lia].
+        -- intros b. rewrite !mem_cons. unfold f_rng, inside, nend in *; simpl.
+           bd; simpl; try reflexivity; try lia;
+             try (rewrite (mem_below (ns e + nc e + 1) t); auto; lia);
+             destruct (mem_nodes t b); reflexivity.
+      * (* truncate e, then look right *)
+        destruct (N.leb_spec (nend e) (start + count)) as [H3|H3]; [|lia].
+        destruct (N.eqb_spec (start - ns e) 0) as [H4|H4]; [lia|].
+        destruct (N.eqb_spec start (ns e)) as [H5|H5]; [lia|].
+        destruct (scan_right start count t 1) as [[p r] f] eqn:S.
+        destruct (scan_right_spec start count t (nend e + 1) 1 p r f C) as (S1 & S2 & S3 & S4); auto; [lia|].
+        split3.
+        -- simpl. split3; auto; try lia. unfold nend in *; simpl.
+           eapply wf_from_weaken; [exact S1|lia].
+        -- intros b. rewrite !mem_cons, S2. unfold f_rng, inside, nend in *; simpl.
+           bd; simpl; try reflexivity; lia.
+        -- intros _. rewrite Hm. destruct S3; subst; reflexivity.
+      * (* start = ns e, range ends inside e *)
+        destruct (N.leb_spec (nend e) (start + count)) as [H3|H3]; [lia|].
+        destruct (N.eqb_spec (nc e) 0) as [H4|H4]; [lia|].
+        destruct (N.eqb_spec start (ns e)) as [H5|H5]; [|lia].
+        split3.
+        -- simpl. split3; auto; try (unfold nend in *; lia). unfold nend in *; simpl.
+           replace (ns e + count + (nc e - count) + 1) with (ns e + nc e + 1) by lia. exact C.
+        -- intros b. rewrite !mem_cons. unfold f_rng, inside, nend in *; simpl.
+           bd; simpl; try reflexivity; try lia;
+             rewrite (mem_below (ns e + nc e + 1) t); auto; lia.
+        -- intros _. rewrite Hm. reflexivity.
+      * (* start = ns e, whole extent goes *)
+        destruct (N.leb_spec (nend e) (start + count)) as [H3|H3]; [|lia].
+        destruct (N.eqb_spec (start - ns e) 0) as [H4|H4]; [|lia].
+        destruct (scan_right start count t 1) as [[p r] f] eqn:S.
+        destruct (scan_right_spec start count t (nend e + 1) 1 p r f C) as (S1 & S2 & S3 & S4); auto; [lia|].
+        split3.
+        -- eapply wf_from_weaken; [exact S1|unfold nend; lia].
+        -- intros b. rewrite mem_cons, S2. unfold f_rng, inside, nend in *.
+           bd; simpl; try reflexivity; lia.
+        -- intros _. rewrite Hm. destruct S3; subst; reflexivity.
+    + destruct (N.ltb_spec start (ns e)) as [H1|H1].
+      * destruct (scan_right start count (e :: t) 0) as [[p r] f] eqn:S.
+        destruct (scan_right_spec start count (e :: t) (N.max lo (start + 1)) 0 p r f) as (S1 & S2 & S3 & S4); auto.
+        { simpl; split3; auto; lia. } { lia. }
+        split3.
+        -- eapply wf_from_weaken; [exact S1|lia].
+        -- exact S2.
+        -- intros ->. rewrite S4 by lia.
+           rewrite (mem_below (start + 1) (e :: t)); [reflexivity| |lia].
+           simpl; split3; auto; lia.
+      * assert (Hge : nend e <= start) by (unfold inside in Hin; bd; simpl in *; try discriminate; lia).
+        specialize (IH (nend e + 1) C).
+        destruct (rm_nodes start count t) as [p r f|p a k]; simpl in *.
+        -- destruct IH as (I1 & I2 & I3). split3; [simpl; auto| |].
+           ++ intros b. rewrite !mem_cons, I2.
+              unfold f_rng, inside in *. bd; simpl; try reflexivity; lia.
+           ++ intros H. rewrite (I3 H), mem_cons, Hin. reflexivity.
+        -- destruct IH as (I1 & I2 & I4 & I5). split4; [simpl; auto|auto| |].
+           ++ intros b. rewrite !mem_cons.
+              replace (f_rng a k b || (inside e b || mem_nodes p b))
+                with (inside e b || (f_rng a k b || mem_nodes p b))
+                by (destruct (f_rng a k b), (inside e b); reflexivity).
+              rewrite I4. unfold f_rng, inside in *.
+              destruct (mem_nodes t b); bd; simpl; try reflexivity; lia.
+           ++ rewrite mem_cons, I5. apply orb_true_r.
+Qed.
+
+(* ======================================================================== *)
+(* state level: identities, cursors                                          *)
+
+Definition ids (l : list node) := map nid l.
+
+Inductive subseq {A} : list A -> list A -> Prop :=
+| ss_nil : subseq [] []
+| ss_keep x l1 l2 : subseq l1 l2 -> subseq (x :: l1) (x :: l2)
+| ss_drop x l1 l2 : subseq l1 l2 -> subseq l1 (x :: l2).
+
+Lemma subseq_refl {A} (l : list A) : subseq l l.
+Proof. induction l; constructor; auto. Qed.
+
+Lemma subseq_In {A} (l1 l2 : list A) x : subseq l1 l2 -> In x l1 -> In x l2.
+Proof. induction 1; simpl; intros H'; auto. destruct H'; auto. Qed.
+
+Lemma subseq_NoDup {A} (l1 l2 : list A) : subseq l1 l2 -> NoDup l2 -> NoDup l1.
+Proof.
+  induction 1; intros N; auto.
+  - inversion N; subst. constructor; auto. intro. apply H2. eapply subseq_In; eauto.
+  - inversion N; subst. auto.
+Qed.
+
+Definition adj {A} (i j : A) (l : list A) := exists l1 l2, l = l1 ++ i :: j :: l2.
+
+Lemma subseq_adj {A} (l' l : list A) i j :
+  subseq l' l -> NoDup l -> adj i j l -> In i l' -> In j l' -> adj i j l'.
+Proof.
+  induction 1 as [|x l1 l2 S IH|x l1 l2 S IH]; intros ND (p & q & E) Hi Hj.
+  - destruct Hi.
+  - inversion ND as [|? ? Hx ND']; subst.
+    destruct p as [|y p]; simpl in E; inversion E; subst.
+    + (* x = i, l2 = j :: q *)
+      inversion S as [| ? l1' ? S' | ? ? ? S']; subst.
+      * exists [], l1'. reflexivity.
+      * exfalso. inversion ND' as [|? ? Hj' _]; subst.
+        destruct Hj as [->|Hj]; [apply Hx; simpl; auto|].
+        apply Hj'. eapply subseq_In; eauto.
+    + destruct Hi as [->|Hi]; [exfalso; apply Hx; apply in_or_app; simpl; auto|].
+      destruct Hj as [->|Hj]; [exfalso; apply Hx; apply in_or_app; simpl; auto|].
+      destruct (IH ND') as (p' & q' & E'); auto; [exists p, q; reflexivity|].
+      exists (y :: p'), q'. simpl. f_equal. exact E'.
+  - inversion ND as [|? ? Hx ND']; subst.
+    destruct p as [|y p]; simpl in E; inversion E; subst.
+    + exfalso. apply Hx. eapply subseq_In; eauto.
+    + apply IH; auto. exists p, q; reflexivity.
+Qed.
+
+Lemma lookup_In i l e : lookup i l = Some e -> In e l /\ nid e = i.
+Proof.
+  induction l as [|x t IH]; simpl; [discriminate|].
+  destruct (N.eqb_spec (nid x) i); intros H.
+  - inversion H; subst; auto.
+  - destruct (IH H); auto.
+Qed.
+
+Lemma lookup_split i l e : lookup i l = Some e ->
+  exists l1 l2, l = l1 ++ e :: l2 /\ ~ In i (ids l1).
+Proof.
+  induction l as [|x t IH]; simpl; [discriminate|].
+  destruct (N.eqb_spec (nid x) i); intros H.
+  - inversion H; subst. exists [], t. simpl; auto.
+  - destruct (IH H) as (l1 & l2 & -> & N). exists (x :: l1), l2. split; [reflexivity|].
+    simpl. intros [?|?]; auto.
+Qed.
+
+Lemma succ_of_split i l r x : lookup i l = Some r -> succ_of i l = Some x ->
+  exists l1 l2, l = l1 ++ r :: x :: l2.
+Proof.
+  induction l as [|y t IH]; simpl; [discriminate|].
+  destruct (N.eqb_spec (nid y) i); intros H1 H2.
+  - inversion H1; subst. destruct t as [|z t']; simpl in H2; [discriminate|].
+    inversion H2; subst. exists [], t'. reflexivity.
+  - destruct (IH H1 H2) as (l1 & l2 & ->). exists (y :: l1), l2. reflexivity.
+Qed.
+
+Lemma adj_ids_nodes l i j r x :
+  NoDup (ids l) -> adj i j (ids l) -> lookup i l = Some r -> lookup j l = Some x ->
+  exists l1 l2, l = l1 ++ r :: x :: l2.
+Proof.
+  intros ND (p & q & E) Hr Hx.
+  unfold ids in E. apply map_eq_app in E. destruct E as (l1 & l2 & -> & E1 & E2).
+  destruct l2 as [|r' [|x' l2]]; simpl in E2; try discriminate.
+  injection E2 as Ei Ej E4.
+  exists l1, l2.
+  assert (Hnd : NoDup (ids (l1 ++ r' :: x' :: l2))) by exact ND.
+  unfold ids in Hnd. rewrite map_app in Hnd. simpl in Hnd.
+  assert (Hi1 : ~ In i (map nid l1)).
+  { apply NoDup_remove_2 in Hnd. intro. apply Hnd. apply in_or_app. left. congruence. }
+  assert (lookup_app : forall k a b, ~ In k (map nid a) -> lookup k (a ++ b) = lookup k b).
+  { clear. induction a as [|y a IHa]; simpl; intros b N; auto.
+    destruct (N.eqb_spec (nid y) k); [exfalso; apply N; auto|]. apply IHa. intro; apply N; auto. }
+  rewrite lookup_app in Hr by exact Hi1. simpl in Hr. rewrite Ei, N.eqb_refl in Hr. inversion Hr; subst r'.
+  assert (Hj1 : ~ In j (map nid l1) /\ j <> i).
+  { apply NoDup_remove in Hnd. destruct Hnd as [Hnd Hni].
+    assert (Hj' : In j (map nid l1 ++ nid x' :: map nid l2)) by (apply in_or_app; right; left; exact Ej).
+    split.
+    - intro Hc. apply NoDup_remove_2 in Hnd. apply Hnd. apply in_or_app. left. rewrite Ej. exact Hc.
+    - intro Hji. apply Hni. rewrite Ei, <- Hji. exact Hj'. }
+  destruct Hj1 as [Hj1 Hji].
+  rewrite lookup_app in Hx by exact Hj1. simpl in Hx.
+  rewrite Ei in Hx. destruct (N.eqb_spec i j); [congruence|].
+  rewrite Ej, N.eqb_refl in Hx. inversion Hx; subst. reflexivity.
+Qed.
+
+Lemma gap_empty : forall l1 lo r x l2 b,
+  wf_from lo (l1 ++ r :: x :: l2) -> nend r <= b -> b < ns x ->
+  mem_nodes (l1 ++ r :: x :: l2) b = false.
+Proof.
+  induction l1 as [|y l1 IH]; intros lo r x l2 b W H1 H2.
+  - simpl in W. destruct W as (A & B & C & D & E). cbn [app].
+    rewrite !mem_cons. rewrite (mem_below _ _ _ E); [|unfold nend; lia].
+    unfold inside, nend in *. bd; simpl; try reflexivity; lia.
+  - simpl in W. destruct W as (A & B & C). simpl. rewrite mem_cons, (IH _ _ _ _ _ C H1 H2).
+    replace (inside y b) with false; [reflexivity|].
+    assert (nend y + 1 <= ns r).
+    { clear - C. revert C. generalize (nend y + 1). induction l1 as [|z l1 IHl]; intros lo C.
+      - simpl in C. tauto.
+      - simpl in C. destruct C as (A & B & C). specialize (IHl _ C). unfold nend in *. lia. }
+    unfold inside, nend in *. bd; simpl; try reflexivity; lia.
+Qed.
+
+Record inv (st : rb) : Prop := {
+  inv_wf : wf_from 0 (nodes st);
+  inv_nodup : NoDup (ids (nodes st));
+  inv_fresh : forall i, In i (ids (nodes st)) -> i < fresh st;
+  inv_rn : forall i j, rc st = Some i -> rn st = Some j ->
+           In i (ids (nodes st)) -> In j (ids (nodes st)) -> adj i j (ids (nodes st));
+}.
+
+Lemma inv_empty : inv rb_empty.
+Proof. constructor; simpl; auto; try constructor; intros; try tauto; discriminate. Qed.
+
+Lemma in_ids_lookup i l : In i (ids l) -> exists e, lookup i l = Some e.
+Proof.
+  induction l as [|x t IH]; simpl; [tauto|]. intros [<-|H].
+  - rewrite N.eqb_refl. eauto.
+  - destruct (nid x =? i); eauto.
+Qed.
+
+Lemma lookup_in_ids i l e : lookup i l = Some e -> In i (ids l).
+Proof. intros H. destruct (lookup_In _ _ _ H) as [H1 <-]. apply in_map. exact H1. Qed.
+
+(* ---- rb_test_bit ---- *)
+Lemma search_test_ok st bit st' r :
+  inv st -> rb_search_test st bit = (st', r) ->
+  inv st' /\ r = rb_mem st bit /\ nodes st' = nodes st.
+Proof.
+  intros I. unfold rb_search_test, rb_mem, mem_nodes.
+  destruct (find_cont bit (nodes st)) as [e|]; intros H; inversion H; subst; [|auto].
+  split3; auto. destruct I. constructor; simpl; auto. intros; discriminate.
+Qed.
+
+Lemma test_bit_ok st bit st' r :
+  inv st -> rb_test_bit st bit = (st', r) ->
+  inv st' /\ r = rb_mem st bit /\ nodes st' = nodes st.
+Proof.
+  intros I. unfold rb_test_bit.
+  destruct (cursor (rc st) (nodes st)) as [rr|] eqn:Hrc; [|apply search_test_ok; auto].
+  assert (Hrc' : exists i, rc st = Some i /\ lookup i (nodes st) = Some rr).
+  { unfold cursor in Hrc. destruct (rc st) as [i|]; [eauto|discriminate]. }
+  destruct Hrc' as (i & Ei & Li).
+  destruct (lookup_In _ _ _ Li) as [Hin Hid].
+  destruct (inside rr bit) eqn:Hins.
+  { intros H; inversion H; subst. split3; auto.
+    unfold rb_mem. symmetry. eapply in_wf_inside; eauto. apply (inv_wf _ I). }
+  set (nx := match cursor (rn st) (nodes st) with
+             | Some x => Some x
+             | None => match rc st with Some i0 => succ_of i0 (nodes st) | None => None end
+             end).
+  assert (Hnx : forall x, nx = Some x -> exists l1 l2, nodes st = l1 ++ rr :: x :: l2).
+  { intros x Hx. unfold nx in Hx. destruct (cursor (rn st) (nodes st)) as [y|] eqn:Hrn.
+    - inversion Hx; subst y. unfold cursor in Hrn. destruct (rn st) as [j|] eqn:Ej; [|discriminate].
+      eapply adj_ids_nodes; eauto; [apply (inv_nodup _ I)|].
+      apply (inv_rn _ I); auto; eapply lookup_in_ids; eauto.
+    - rewrite Ei in Hx. eapply succ_of_split; eauto. }
+  destruct nx as [x|] eqn:Enx.
+  - destruct ((nend rr <=? bit) && (bit <? ns x)) eqn:G.
+    + intros H; inversion H; subst. destruct (Hnx x eq_refl) as (l1 & l2 & E).
+      split3; auto.
+      * destruct I as [W ND F RN]. constructor; simpl; auto.
+        intros i0 j0 Hi0 Hj0 _ _. rewrite Ei in Hi0. inversion Hi0; inversion Hj0; subst.
+        rewrite E. unfold ids. rewrite map_app. simpl. exists (map nid l1), (map nid l2). reflexivity.
+      * unfold rb_mem. rewrite E. symmetry. apply (gap_empty l1 0).
+        -- rewrite <- E. apply (inv_wf _ I).
+        -- bd; simpl in G; try discriminate; lia.
+        -- bd; simpl in G; try discriminate; lia.
+    + set (st2 := mkRB (nodes st) (wc st) None None (fresh st)).
+      assert (I2 : inv st2).
+      { destruct I. constructor; simpl; auto. intros; discriminate. }
+      destruct (cursor (wc st) (nodes st)) as [w|] eqn:Hw.
+      * destruct (inside w bit) eqn:Hiw.
+        -- intros H; inversion H; subst. split3; auto.
+           unfold cursor in Hw. destruct (wc st) as [k|]; [|discriminate].
+           destruct (lookup_In _ _ _ Hw). unfold rb_mem. symmetry.
+           eapply in_wf_inside; eauto. apply (inv_wf _ I).
+        -- intros H. apply (search_test_ok st2) in H; auto.
+      * intros H. apply (search_test_ok st2) in H; auto.
+  - set (st2 := mkRB (nodes st) (wc st) None None (fresh st)).
+    assert (I2 : inv st2).
+    { destruct I. constructor; simpl; auto. intros; discriminate. }
+    destruct (cursor (wc st) (nodes st)) as [w|] eqn:Hw.
+    + destruct (inside w bit) eqn:Hiw.
+      * intros H; inversion H; subst. split3; auto.
+        unfold cursor in Hw. destruct (wc st) as [k|]; [|discriminate].
+        destruct (lookup_In _ _ _ Hw). unfold rb_mem. symmetry.
+        eapply in_wf_inside; eauto. apply (inv_wf _ I).
+      * intros H. apply (search_test_ok st2) in H; auto.
+    + intros H. apply (search_test_ok st2) in H; auto.
+Qed.
+
+(* ---- free_ids ---- *)
+Lemma free_ids_props : forall f st l,
+  let s := free_ids st f l in
+  nodes s = l /\ fresh s = fresh st /\
+  (forall i, wc s = Some i -> wc st = Some i /\ ~ In i f) /\
+  (forall i, rc s = Some i -> rc st = Some i /\ ~ In i f) /\
+  (forall i, rn s = Some i -> rn st = Some i /\ ~ In i f).
+Proof.
+  unfold free_ids. intros f st l.
+  set (s0 := mkRB l (wc st) (rc st) (rn st) (fresh st)).
+  assert (G : forall f s1, let s := fold_left (fun s i => mkRB (nodes s) (clear_if (wc s) i) (clear_if (rc s) i)
+                             (clear_if (rn s) i) (fresh s)) f s1 in
+             nodes s = nodes s1 /\ fresh s = fresh s1 /\
+             (forall i, wc s = Some i -> wc s1 = Some i /\ ~ In i f) /\
+             (forall i, rc s = Some i -> rc s1 = Some i /\ ~ In i f) /\
+             (forall i, rn s = Some i -> rn s1 = Some i /\ ~ In i f)).
+  { clear. induction f as [|k f IH]; intros s1; simpl.
+    - repeat split; auto.
+    - specialize (IH (mkRB (nodes s1) (clear_if (wc s1) k) (clear_if (rc s1) k) (clear_if (rn s1) k) (fresh s1))).
+      simpl in IH. destruct IH as (A & B & C & D & E).
+      assert (CI : forall c i, clear_if c k = Some i -> c = Some i /\ k <> i).
+      { intros c i. unfold clear_if. destruct c as [j|]; [|discriminate].
+        destruct (N.eqb_spec j k); [discriminate|]. intros H; inversion H; subst. auto. }
+      repeat split; auto.
+      + apply C in H. destruct H as [H _]. apply CI in H. tauto.
+      + apply C in H. destruct H as [H1 H2]. apply CI in H1. intros [?|?]; tauto.
+      + apply D in H. destruct H as [H _]. apply CI in H. tauto.
+      + apply D in H. destruct H as [H1 H2]. apply CI in H1. intros [?|?]; tauto.
+      + apply E in H. destruct H as [H _]. apply CI in H. tauto.
+      + apply E in H. destruct H as [H1 H2]. apply CI in H1. intros [?|?]; tauto. }
+  apply (G f s0).
+Qed.
+
+(* ---- identities through the list functions ---- *)
+Lemma merge_right_ids start count : forall post c p f,
+  merge_right start count post = (c, p, f) -> subseq (ids p) (ids post).
+Proof.
+  induction post as [|e t IH]; intros c p f M; simpl in M.
+  - inversion M; subst. constructor.
+  - destruct (nend e <=? start).
+    + destruct (merge_right start count t) as [[c' p'] f'] eqn:E. inversion M; subst.
+      simpl. constructor. eapply IH; eauto.
+    + destruct (start + count <? ns e).
+      * inversion M; subst. apply subseq_refl.
+      * destruct (nend e <=? start + count).
+        -- destruct (merge_right start count t) as [[c' p'] f'] eqn:E. inversion M; subst.
+           simpl. constructor. eapply IH; eauto.
+        -- inversion M; subst. simpl. constructor. apply subseq_refl.
+Qed.
+
+Lemma ins_nodes_ids fr start count : forall l l' r f n,
+  NoDup (ids l) -> (forall i, In i (ids l) -> i < fr) ->
+  ins_nodes fr start count l = (l', r, f, n) ->
+  NoDup (ids l') /\
+  (forall i, In i (ids l') -> In i (ids l) \/ (i = fr /\ n = Some fr)).
+Proof.
+  induction l as [|e t IH]; intros l' r f n ND F I; cbn [ins_nodes] in I.
+  - inversion I; subst. simpl. split; [repeat constructor; auto|]. intros i [<-|[]]; auto.
+  - destruct (start <? ns e).
+    + destruct (merge_right start count (e :: t)) as [[c p] f'] eqn:M. inversion I; subst.
+      pose proof (merge_right_ids _ _ _ _ _ _ M) as S.
+      split.
+      * simpl. constructor; [|eapply subseq_NoDup; eauto].
+        intro H. apply (subseq_In _ _ _ S) in H. apply F in H. lia.
+      * intros i Hi. simpl in Hi. destruct Hi as [<-|H]; auto. left. eapply subseq_In; eauto.
+    + destruct (start <=? nend e).
+      * destruct (start + count <=? nend e).
+        -- inversion I; subst. auto.
+        -- destruct (merge_right (ns e) (count + (start - ns e)) t) as [[c p] f'] eqn:M. inversion I; subst.
+           pose proof (merge_right_ids _ _ _ _ _ _ M) as S.
+           simpl in ND. inversion ND as [|? ? Hn ND']; subst.
+           split.
+           ++ simpl. constructor; [|eapply subseq_NoDup; eauto].
+              intro H. apply Hn. eapply subseq_In; eauto.
+           ++ intros i Hi. simpl in Hi. destruct Hi as [<-|H]; [left; simpl; auto|]. left. simpl. right. eapply subseq_In; eauto.
+      * destruct (ins_nodes fr start count t) as [[[l2 r2] f2] n2] eqn:E. inversion I; subst.
+        simpl in ND. inversion ND as [|? ? Hn ND']; subst.
+        destruct (IH l2 r f n ND') as (I1 & I2); auto.
+        { intros i Hi. apply F. simpl. auto. }
+        split.
+        -- simpl. constructor; auto. intro H. destruct (I2 _ H) as [H'|[H' _]]; [auto|].
+           assert (nid e < fr) by (apply F; simpl; auto). lia.
+        -- intros i Hi. simpl in Hi. destruct Hi as [<-|H]; [left; simpl; auto|]. destruct (I2 _ H) as [H'|H']; auto. left; simpl; auto.
+Qed.
+
+Lemma scan_right_ids start count : forall l ret p r f,
+  scan_right start count l ret = (p, r, f) -> subseq (ids p) (ids l).
+Proof.
+  induction l as [|e t IH]; intros ret p r f S; simpl in S.
+  - inversion S; subst. constructor.
+  - destruct (nend e <=? start).
+    + destruct (scan_right start count t ret) as [[p' r'] f'] eqn:E. inversion S; subst.
+      simpl. constructor. eapply IH; eauto.
+    + destruct (start + count <=? ns e).
+      * inversion S; subst. apply subseq_refl.
+      * destruct (nend e <=? start + count).
+        -- destruct (scan_right start count t 1) as [[p' r'] f'] eqn:E. inversion S; subst.
+           simpl. constructor. eapply IH; eauto.
+        -- inversion S; subst. simpl. constructor. apply subseq_refl.
+Qed.
+
+Lemma rm_nodes_ids start count : forall l,
+  match rm_nodes start count l with
+  | RmDone l' _ _ => subseq (ids l') (ids l)
+  | RmSplit l' _ _ => subseq (ids l') (ids l)
+  end.
+Proof.
+  induction l as [|e t IH]; cbn [rm_nodes]; [constructor|].
+  destruct (inside e start).
+  - destruct ((ns e <? start) && (start + count <? nend e)); [simpl; constructor; apply subseq_refl|].
+    destruct ((if nend e <=? start + count then start - ns e else nc e) =? 0).
+    + destruct (scan_right start count t _) as [[p r] f] eqn:S. simpl. constructor. eapply scan_right_ids; eauto.
+    + destruct (start =? ns e); [simpl; constructor; apply subseq_refl|].
+      destruct (scan_right start count t _) as [[p r] f] eqn:S. simpl. constructor. eapply scan_right_ids; eauto.
+  - destruct (start <? ns e).
+    + destruct (scan_right start count (e :: t) 0) as [[p r] f] eqn:S. eapply scan_right_ids; eauto.
+    + destruct (rm_nodes start count t); simpl; constructor; auto.
+Qed.
+
+Lemma nodup_ids_inj l : NoDup (ids l) -> forall x y, In x l -> In y l -> nid x = nid y -> x = y.
+Proof.
+  induction l as [|e t IH]; intros ND x y Hx Hy E; [destruct Hx|].
+  simpl in ND. inversion ND as [|? ? Hn ND']; subst.
+  destruct Hx as [->|Hx], Hy as [->|Hy]; auto.
+  - exfalso. apply Hn. rewrite E. apply in_map. auto.
+  - exfalso. apply Hn. rewrite <- E. apply in_map. auto.
+Qed.
+
+(* ---- rb_insert_extent ---- *)
+Lemma insert_ok st start count st' r :
+  inv st -> rb_insert_extent st start count = (st', r) ->
+  inv st' /\ (forall b, rb_mem st' b = f_rng start count b || rb_mem st b) /\
+  (count = 1 -> r = b2n (rb_mem st start)).
+Proof.
+  intros I. unfold rb_insert_extent.
+  destruct (N.eqb_spec count 0) as [->|Hc].
+  { intros H; inversion H; subst. split3; auto; [|intros; lia]. intros b. rewrite f_rng_0. reflexivity. }
+  set (st0 := mkRB (nodes st) (wc st) (rc st) None (fresh st)).
+  assert (I0 : inv st0) by (destruct I; constructor; simpl; auto; intros; discriminate).
+  assert (Main : forall l r f n stx,
+            ins_nodes (fresh st) start count (nodes st) = (l, r, f, n) ->
+            nodes stx = nodes st -> rn stx = None ->
+            fresh stx = (match n with Some _ => fresh st + 1 | None => fresh st end) ->
+            inv (free_ids stx f l) /\
+            (forall b, rb_mem (free_ids stx f l) b = f_rng start count b || rb_mem st b) /\
+            (count = 1 -> r = b2n (rb_mem st start))).
+  { intros l r0 f n stx E En Ern Efr.
+    assert (H0s : 0 <= start) by lia. assert (H0c : 0 < count) by lia.
+    destruct (ins_nodes_spec _ _ _ _ 0 _ _ _ _ (inv_wf _ I) H0s H0c E) as (S1 & S2 & S3).
+    destruct (ins_nodes_ids _ _ _ _ _ _ _ _ (inv_nodup _ I) (inv_fresh _ I) E) as (D1 & D2).
+    destruct (free_ids_props f stx l) as (P1 & P2 & P3 & P4 & P5).
+    split3.
+    - constructor.
+      + rewrite P1. exact S1.
+      + rewrite P1. exact D1.
+      + rewrite P1, P2, Efr. intros i Hi. destruct (D2 _ Hi) as [H|[-> ->]]; [|lia].
+        apply (inv_fresh _ I) in H. destruct n; lia.
+      + intros i j _ Hj. apply P5 in Hj. rewrite Ern in Hj. destruct Hj; discriminate.
+    - intros b. unfold rb_mem. rewrite P1. apply S2.
+    - exact S3. }
+  destruct (cursor (wc st0) (nodes st0)) as [w|] eqn:Hw.
+  - destruct ((ns w <=? start) && (start <=? nend w)) eqn:Hr.
+    + (* shortcut *)
+      assert (Hw' : In w (nodes st)).
+      { unfold cursor in Hw. simpl in Hw. destruct (wc st); [|discriminate]. apply lookup_In in Hw. tauto. }
+      pose proof (ins_at_eq (fresh st) start count (nodes st) 0 w (inv_wf _ I) Hw'
+                   ltac:(bd; simpl in Hr; try discriminate; lia)
+                   (nodup_ids_inj _ (inv_nodup _ I))) as E.
+      simpl. destruct (ins_at (nid w) start count (nodes st)) as [[l r0] f] eqn:Ea.
+      intros H; inversion H; subst.
+      apply (Main l r f None st0); auto.
+    + simpl. destruct (ins_nodes (fresh st) start count (nodes st)) as [[[l r0] f] n] eqn:E.
+      intros H; inversion H; subst.
+      destruct n as [i|]; apply (Main l r f _ _ eq_refl); auto.
+  - simpl. destruct (ins_nodes (fresh st) start count (nodes st)) as [[[l r0] f] n] eqn:E.
+    intros H; inversion H; subst.
+    destruct n as [i|]; apply (Main l r f _ _ eq_refl); auto.
+Qed.
+
+(* ---- rb_remove_extent ---- *)
+Lemma remove_ok st start count st' r :
+  inv st -> rb_remove_extent st start count = (st', r) ->
+  inv st' /\ (forall b, rb_mem st' b = negb (f_rng start count b) && rb_mem st b) /\
+  (count = 1 -> r = b2n (rb_mem st start)).
+Proof.
+  intros I. unfold rb_remove_extent.
+  destruct (nodes st) as [|e0 t0] eqn:En.
+  { intros H; inversion H; subst. split3; auto.
+    - intros b. unfold rb_mem. rewrite En, mem_nil. symmetry. apply andb_false_r.
+    - intros _. unfold rb_mem. rewrite En. reflexivity. }
+  rewrite <- En.
+  pose proof (rm_nodes_spec start count (nodes st) 0 (inv_wf _ I)) as RS.
+  pose proof (rm_nodes_ids start count (nodes st)) as RI.
+  assert (Sub : forall l stx, subseq (ids l) (ids (nodes st)) -> wf_from 0 l ->
+                 nodes stx = l -> fresh stx = fresh st ->
+                 (forall i, rc stx = Some i -> rc st = Some i) ->
+                 (forall i, rn stx = Some i -> rn st = Some i) -> inv stx).
+  { intros l stx S W E1 E2 E3 E4. constructor.
+    - rewrite E1; auto.
+    - rewrite E1. eapply subseq_NoDup; eauto. apply (inv_nodup _ I).
+    - rewrite E1, E2. intros i Hi. apply (inv_fresh _ I). eapply subseq_In; eauto.
+    - rewrite E1. intros i j Hi Hj Ii Ij. apply E3 in Hi. apply E4 in Hj.
+      eapply subseq_adj; eauto; [apply (inv_nodup _ I)|].
+      apply (inv_rn _ I); auto; eapply subseq_In; eauto. }
+  destruct (rm_nodes start count (nodes st)) as [l r0 f|l a k].
+  - intros H; inversion H; subst. destruct RS as (S1 & S2 & S3).
+    destruct (free_ids_props f st l) as (P1 & P2 & P3 & P4 & P5).
+    split3; auto.
+    + apply (Sub l); auto; intros i Hi; [apply P4 in Hi|apply P5 in Hi]; tauto.
+    + intros b. unfold rb_mem. rewrite P1. apply S2.
+  - destruct RS as (S1 & S2 & S3 & S4).
+    set (st1 := mkRB l (wc st) (rc st) (rn st) (fresh st)).
+    assert (I1 : inv st1) by (apply (Sub l); auto).
+    destruct (rb_insert_extent st1 a k) as [st2 r2] eqn:Ei.
+    intros H; inversion H; subst.
+    destruct (insert_ok _ _ _ _ _ I1 Ei) as (J1 & J2 & _).
+    split3; auto.
+    + intros b. rewrite J2. unfold rb_mem at 1. simpl. apply S3.
+    + intros _. unfold rb_mem. rewrite S4. reflexivity.
+Qed.
+
+(* ---- rb_test_clear_bmap_extent ---- *)
+Lemma find_cont_none_iff b l : find_cont b l = None <-> mem_nodes l b = false.
+Proof. unfold mem_nodes. destruct (find_cont b l); split; intros; auto; discriminate. Qed.
+
+Lemma tc_scan_spec a n : forall l lo,
+  wf_from lo l -> mem_nodes l a = false -> 0 < n ->
+  (tc_scan a n l = true <-> forall b, a <= b < a + n -> mem_nodes l b = false).
+Proof.
+  induction l as [|e t IH]; intros lo W Ha Hn; simpl.
+  - split; auto.
+  - destruct W as (A & B & C). rewrite mem_cons in Ha. apply orb_false_elim in Ha. destruct Ha as [Ha1 Ha2].
+    destruct (N.leb_spec (nend e) a) as [H1|H1].
+    + rewrite (IH _ C Ha2 Hn). split; intros H b Hb.
+      * rewrite mem_cons, (H b Hb). replace (inside e b) with false; [reflexivity|].
+        unfold inside. bd; simpl; try reflexivity; lia.
+      * specialize (H b Hb). rewrite mem_cons in H. apply orb_false_elim in H. tauto.
+    + assert (Hlt : a < ns e) by (unfold inside in Ha1; bd; simpl in *; try discriminate; lia).
+      split.
+      * intros H b Hb. apply (mem_below (ns e)); [simpl; split3; auto; lia|].
+        bd; try discriminate; lia.
+      * intros H. destruct (N.leb_spec (a + n) (ns e)); [reflexivity|].
+        specialize (H (ns e) ltac:(lia)). rewrite mem_cons in H.
+        unfold inside, nend in H. bd; simpl in *; try discriminate; lia.
+Qed.
+
+Lemma test_clear_ok st a n : inv st ->
+  rb_test_clear st a n = f_all_clear (rb_mem st) a (N.to_nat n).
+Proof.
+  intros I. unfold rb_test_clear.
+  destruct (N.eqb_spec n 0) as [->|Hn]; [reflexivity|].
+  apply eq_iff_eq_true. rewrite f_all_clear_iff, N2Nat.id.
+  destruct (nodes st) as [|e0 t0] eqn:En.
+  { split; auto. intros _ b _. unfold rb_mem. rewrite En. reflexivity. }
+  rewrite <- En. unfold rb_mem.
+  destruct (find_cont a (nodes st)) as [e|] eqn:F.
+  - split; [discriminate|]. intros H. specialize (H a ltac:(lia)).
+    apply find_cont_some in F. congruence.
+  - apply (tc_scan_spec a n _ 0); [apply (inv_wf _ I)|apply find_cont_none_iff; auto|lia].
+Qed.
+
+(* ---- find first zero / set ---- *)
+Lemma mem_at_end : forall l lo e, wf_from lo l -> In e l -> mem_nodes l (nend e) = false.
+Proof.
+  induction l as [|x t IH]; intros lo e W HI; [destruct HI|].
+  destruct W as (A & B & C). rewrite mem_cons. destruct HI as [->|HI].
+  - rewrite (mem_below _ _ _ C); [|lia]. unfold inside. bd; simpl; try reflexivity; lia.
+  - rewrite (IH _ _ C HI).
+    assert (nend x + 1 <= ns e).
+    { clear - C HI. revert C. generalize (nend x + 1). induction t as [|z t IHt]; intros lo C; [destruct HI|].
+      destruct C as (A & B & C). destruct HI as [->|HI]; auto. specialize (IHt HI _ C). unfold nend in *. lia. }
+    unfold inside, nend in *. bd; simpl; try reflexivity; lia.
+Qed.
+
+Lemma ffz_ok st a b : inv st -> a <= b ->
+  rb_ffz st a b = f_scan (rb_mem st) false a (N.to_nat (b + 1 - a)).
+Proof.
+  intros I Hab. unfold rb_ffz, rb_mem.
+  destruct (find_cont a (nodes st)) as [e|] eqn:F.
+  - destruct (find_cont_inside _ _ _ F) as [HI Hin].
+    assert (Hr : ns e <= a < nend e) by (unfold inside in Hin; bd; simpl in *; try discriminate; lia).
+    assert (Hall : forall x, a <= x < nend e -> mem_nodes (nodes st) x <> false).
+    { intros x Hx. rewrite (in_wf_inside 0 _ e x (inv_wf _ I) HI); [discriminate|].
+      unfold inside. bd; simpl; try reflexivity; lia. }
+    destruct (N.leb_spec (nend e) b).
+    + symmetry. apply f_scan_first; try lia; auto.
+      eapply mem_at_end; eauto. apply (inv_wf _ I).
+    + symmetry. apply f_scan_none. intros x Hx. apply Hall. lia.
+  - symmetry. replace (N.to_nat (b + 1 - a)) with (S (N.to_nat (b - a))) by lia.
+    apply f_scan_hit. apply find_cont_none_iff. exact F.
+Qed.
+
+Lemma first_after_spec a : forall l lo,
+  wf_from lo l -> mem_nodes l a = false ->
+  match first_after a l with
+  | Some e => In e l /\ a < ns e /\ forall x, a <= x < ns e -> mem_nodes l x = false
+  | None => forall x, a <= x -> mem_nodes l x = false
+  end.
+Proof.
+  induction l as [|e t IH]; intros lo W Ha; simpl.
+  - intros; reflexivity.
+  - destruct W as (A & B & C). rewrite mem_cons in Ha. apply orb_false_elim in Ha. destruct Ha as [Ha1 Ha2].
+    destruct (N.ltb_spec a (ns e)).
+    + split3; auto. intros x Hx. apply (mem_below (ns e)); [simpl; split3; auto; lia|lia].
+    + assert (nend e <= a) by (unfold inside in Ha1; bd; simpl in *; try discriminate; lia).
+      specialize (IH _ C Ha2). destruct (first_after a t) as [e'|].
+      * destruct IH as (I1 & I2 & I3). split3; auto. intros x Hx. rewrite mem_cons, (I3 x Hx).
+        unfold inside. bd; simpl; try reflexivity; lia.
+      * intros x Hx. rewrite mem_cons, (IH x Hx). unfold inside. bd; simpl; try reflexivity; lia.
+Qed.
+
+Lemma wf_in_pos : forall l lo e, wf_from lo l -> In e l -> 0 < nc e.
+Proof.
+  induction l as [|z t IH]; intros lo e W HI; [destruct HI|].
+  destruct W as (A & B & C). destruct HI as [->|HI]; eauto.
+Qed.
+
+Lemma ffs_ok st a b : inv st -> a <= b ->
+  rb_ffs st a b = f_scan (rb_mem st) true a (N.to_nat (b + 1 - a)).
+Proof.
+  intros I Hab. unfold rb_ffs, rb_mem.
+  destruct (nodes st) as [|e0 t0] eqn:En.
+  { symmetry. apply f_scan_none. intros x _. rewrite mem_nil. discriminate. }
+  rewrite <- En.
+  destruct (find_cont a (nodes st)) as [e|] eqn:F.
+  - symmetry. replace (N.to_nat (b + 1 - a)) with (S (N.to_nat (b - a))) by lia.
+    apply f_scan_hit. eapply find_cont_some; eauto.
+  - pose proof (first_after_spec a (nodes st) 0 (inv_wf _ I) (proj1 (find_cont_none_iff _ _) F)) as FA.
+    destruct (first_after a (nodes st)) as [e|].
+    + destruct FA as (F1 & F2 & F3).
+      destruct (N.leb_spec (ns e) b).
+      * symmetry. apply f_scan_first; try lia.
+        -- intros x Hx. rewrite F3 by lia. discriminate.
+        -- apply (in_wf_inside 0 _ e); auto; [apply (inv_wf _ I)|].
+           assert (0 < nc e) by (eapply wf_in_pos; eauto; apply (inv_wf _ I)).
+           unfold inside, nend. bd; simpl; try reflexivity; lia.
+      * symmetry. apply f_scan_none. intros x Hx. rewrite F3 by lia. discriminate.
+    + symmetry. apply f_scan_none. intros x Hx. rewrite FA by lia. discriminate.
+Qed.
+
+(* ---- bulk get ---- *)
+Lemma paint_spec l start : forall out pos,
+  paint l start out pos = f_bits (mem_nodes l) (start + pos) (length out).
+Proof.
+  induction out as [|x r IH]; intros pos; simpl; [reflexivity|].
+  rewrite IH. f_equal. f_equal. lia.
+Qed.
+
+Lemma get_ok st gs a n : rb_get st gs a n = f_bits (rb_mem st) (a - gs) (N.to_nat n).
+Proof.
+  unfold rb_get. rewrite paint_spec, repeat_length. f_equal. lia.
+Qed.
+
+(* ---- bulk set ---- *)
+Definition pend (first : option N) (base i : N) (j : N) : bool :=
+  match first with Some f => (base + f <=? j) && (j <? base + i) | None => false end.
+
+Definition win (base i : N) (bits : list bool) (j : N) : bool :=
+  (base + i <=? j) && (j <? base + i + N.of_nat (length bits)) &&
+  nth (N.to_nat (j - (base + i))) bits false.
+
+Lemma win_nil base i j : win base i [] j = false.
+Proof. unfold win. simpl. destruct (N.to_nat (j - (base + i))); rewrite andb_false_r; reflexivity. Qed.
+
+Lemma win_cons base i x r j :
+  win base i (x :: r) j = ((j =? base + i) && x) || win base (i + 1) r j.
+Proof.
+  unfold win. cbn [length].
+  destruct (N.eqb_spec j (base + i)) as [->|Hj].
+  - replace (N.to_nat (base + i - (base + i))) with O by lia. simpl.
+    destruct x; bd; simpl; try reflexivity; lia.
+  - destruct (N.ltb_spec j (base + i)).
+    + bd; simpl; try reflexivity; lia.
+    + replace (N.to_nat (j - (base + i))) with (S (N.to_nat (j - (base + (i + 1))))) by lia.
+      simpl. bd; simpl; try reflexivity; lia.
+Qed.
+
+Lemma set_runs_ok base : forall bits st i first,
+  inv st -> (match first with Some f => f < i | None => True end) ->
+  inv (set_runs st base bits i first) /\
+  forall j, rb_mem (set_runs st base bits i first) j =
+            pend first base i j || win base i bits j || rb_mem st j.
+Proof.
+  induction bits as [|x r IH]; intros st i first I Hf.
+  - cbn [set_runs]. destruct first as [f|].
+    + destruct (rb_insert_extent st (base + f) (i - f)) as [st' r'] eqn:E.
+      destruct (insert_ok _ _ _ _ _ I E) as (J1 & J2 & _). simpl. split; auto.
+      intros j. rewrite J2, win_nil. unfold pend, f_rng.
+      replace (base + f + (i - f)) with (base + i) by lia.
+      rewrite orb_false_r. reflexivity.
+    + split; auto. intros j. rewrite win_nil. reflexivity.
+  - cbn [set_runs]. destruct x.
+    + set (first' := match first with Some f => Some f | None => Some i end).
+      destruct (IH st (i + 1) first' I) as (J1 & J2).
+      { unfold first'. destruct first; lia. }
+      split; auto. intros j. rewrite J2, win_cons.
+      assert (P : pend first' base (i + 1) j = pend first base i j || (j =? base + i)).
+      { unfold first', pend. destruct first as [f|]; bd; simpl; try reflexivity; lia. }
+      rewrite P, andb_true_r.
+      destruct (pend first base i j), (j =? base + i), (win base (i + 1) r j); reflexivity.
+    + destruct first as [f|].
+      * destruct (rb_insert_extent st (base + f) (i - f)) as [st' r'] eqn:E.
+        destruct (insert_ok _ _ _ _ _ I E) as (K1 & K2 & _). simpl.
+        destruct (IH st' (i + 1) None K1 Logic.I) as (J1 & J2).
+        split; auto. intros j. rewrite J2, K2, win_cons. unfold pend, f_rng.
+        replace (base + f + (i - f)) with (base + i) by lia.
+        rewrite andb_false_r. simpl.
+        destruct ((base + f <=? j) && (j <? base + i)), (win base (i + 1) r j); reflexivity.
+      * destruct (IH st (i + 1) None I Logic.I) as (J1 & J2).
+        split; auto. intros j. rewrite J2, win_cons, andb_false_r. reflexivity.
+Qed.
+
+Lemma RB_ok : backend_ok RB inv rb_mem.
+Proof.
+  constructor.
+  - split; [apply inv_empty|reflexivity].
+  - intros t i I. simpl. destruct (rb_insert_extent t i 1) as [s r] eqn:E.
+    destruct (insert_ok _ _ _ _ _ I E) as (A & B & C). simpl. split3; auto.
+    + rewrite (C eq_refl). destruct (rb_mem t i); reflexivity.
+    + intros j. rewrite B, f_rng_1. reflexivity.
+  - intros t i I. simpl. destruct (rb_remove_extent t i 1) as [s r] eqn:E.
+    destruct (remove_ok _ _ _ _ _ I E) as (A & B & C). simpl. split3; auto.
+    + rewrite (C eq_refl). destruct (rb_mem t i); reflexivity.
+    + intros j. rewrite B, f_rng_1. reflexivity.
+  - intros t i I. simpl. destruct (rb_test_bit t i) as [s r] eqn:E.
+    destruct (test_bit_ok _ _ _ _ I E) as (A & B & C). simpl. split3; auto.
+    intros j. unfold rb_mem. rewrite C. reflexivity.
+  - intros t a n I. simpl. destruct (rb_insert_extent t a n) as [s r] eqn:E.
+    destruct (insert_ok _ _ _ _ _ I E) as (A & B & C). simpl. auto.
+  - intros t a n I. simpl. destruct (rb_remove_extent t a n) as [s r] eqn:E.
+    destruct (remove_ok _ _ _ _ _ I E) as (A & B & C). simpl. auto.
+  - intros. apply test_clear_ok; auto.
+  - intros. apply ffz_ok; auto.
+  - intros. apply ffs_ok; auto.
+  - intros. apply get_ok.
+  - intros t gs a bits I Al Hlen. simpl. unfold rb_set.
+    destruct (rb_remove_extent t (a - gs) (N.of_nat (length bits))) as [s r] eqn:E.
+    destruct (remove_ok _ _ _ _ _ I E) as (A & B & _). simpl.
+    destruct (set_runs_ok (a - gs) bits s 0 None A Logic.I) as (J1 & J2).
+    split; auto. intros j. rewrite J2, B. unfold pend, win, f_rng. simpl.
+    rewrite !N.add_0_r.
+    destruct ((a - gs <=? j) && (j <? a - gs + N.of_nat (length bits))); simpl.
+    + destruct (nth (N.to_nat (j - (a - gs))) bits false); reflexivity.
+    + reflexivity.
+  - intros t I. simpl. split; [|reflexivity].
+    constructor; simpl; auto; try constructor; intros; try tauto; discriminate.
+  - intros t I. simpl. split3.
+    + destruct I. constructor; simpl; auto. intros; discriminate.
+    + destruct I. constructor; simpl; auto. intros; discriminate.
+    + intros j. split; reflexivity.
+Qed.
+
+Lemma rb_inv_step st a n : inv st ->
+  inv (fst (rb_insert_extent st a n)) /\ inv (fst (rb_remove_extent st a n)) /\ inv (fst (rb_test_bit st a)).
+Proof.
+  intros I. split3.
+  - destruct (rb_insert_extent st a n) as [s r] eqn:E. apply (insert_ok _ _ _ _ _ I E).
+  - destruct (rb_remove_extent st a n) as [s r] eqn:E. apply (remove_ok _ _ _ _ _ I E).
+  - destruct (rb_test_bit st a) as [s r] eqn:E. apply (test_bit_ok _ _ _ _ I E).
+Qed.
